@@ -426,6 +426,11 @@ func payload(r *hx.Rand, n int) []byte {
 // opSuffix is appended to the next `w` op line (" edge=maxpkt" marks the recorded-finding op class).
 var opSuffix string
 
+// deferBig: the 256 KiB ops are collected and later spread evenly over the op list (the check hands contiguous
+// chunks of the list to parallel model processes; a cluster of large ops would serialise in one of them).
+var deferBig bool
+var bigOps []string
+
 func emitW(g *hx.Gen, r *hx.Rand, c, m string, seq uint32, lens []int) {
 	ks, is, ms, ok := ssh.VerifCipherSizes(c, m)
 	if !ok {
@@ -453,8 +458,13 @@ func emitW(g *hx.Gen, r *hx.Rand, c, m string, seq uint32, lens []int) {
 		}
 		g.Stat("ctr.iv-carry")
 	}
-	g.Emit("w c=%s m=%s key=%s iv=%s mkey=%s seq=%d p=%s rnd=%s%s", c, m, hx.Hex(r.Bytes(ks)), hx.Hex(iv), hx.Hex(r.Bytes(ms)),
+	line := fmt.Sprintf("w c=%s m=%s key=%s iv=%s mkey=%s seq=%d p=%s rnd=%s%s", c, m, hx.Hex(r.Bytes(ks)), hx.Hex(iv), hx.Hex(r.Bytes(ms)),
 		seq, hexList(ps), hx.Hex(r.Bytes(32*len(lens))), opSuffix)
+	if deferBig {
+		bigOps = append(bigOps, line)
+	} else {
+		g.Emit("%s", line)
+	}
 	g.Stat("cipher." + c)
 	if m != "-" {
 		g.Stat("mac." + m)
@@ -584,28 +594,43 @@ func gen(g *hx.Gen) {
 		emitW(g, r, pr[0], pr[1], 0xffffffff-uint32(r.Intn(3)), []int{r.Range(1, 60), r.Range(1, 60), r.Range(1, 60), r.Range(1, 60), r.Range(1, 60)})
 		g.Stat("seq.wraps")
 	}
-	// The upper end of the statement's payload range. Largest payload each family's own reader still accepts
-	// (ordinary ops, pin the threshold) and the first one it refuses plus maxPacket itself (op class edge=maxpkt:
-	// the driver answers per the property statement, the code's err:len is the recorded finding
-	// maxpacket-payload-not-readable).
-	//   stream E&M / none / CBC (AES, 3DES): last readable 262135, refused 262136..262144
-	//   stream EtM / GCM / chacha20-poly1305: last readable 262139, refused 262140..262144
+	// The upper end of the statement's payload range, for every cipher family on every run:
+	//   ordinary ops — the payload sizes whose packet_length is the largest the family's reader accepts and one / two
+	//   alignment steps below it (packet_length = maxPacket − {0, 8, 16} where the family's alignment allows it):
+	//   a packet the writer emits with packet_length ≤ maxPacket must be read back;
+	//   op class edge=maxpkt — the first refused payload size of the family, and maxPacket itself for some: the driver
+	//   answers per the property statement, the code's refusal is the recorded finding maxpacket-payload-not-readable.
+	//     stream E&M / none / CBC: packet_length 262140 is the largest possible (4 + length ≡ 0 mod 16 resp. 8):
+	//        payloads 262135 (pad 4); refused from 262136
+	//     stream EtM / GCM (length ≡ 0 mod 16) and chacha20-poly1305 (mod 8): packet_length 262144: payload 262139;
+	//        refused from 262140
 	edge := []struct {
-		c, m   string
-		lastOK int
+		c, m     string
+		accepted []int // payload sizes that must round-trip
+		refused  int   // first payload size the reader refuses
 	}{
-		{"aes128-ctr", "hmac-sha2-256", 262135}, {"aes128-ctr", "hmac-sha2-256-etm@openssh.com", 262139},
-		{"aes128-gcm@openssh.com", "-", 262139}, {"chacha20-poly1305@openssh.com", "-", 262139},
-		{"aes128-cbc", "hmac-sha1", 262135}, {"3des-cbc", "hmac-sha1-96", 262135}, {"none", "-", 262135},
+		{"aes128-ctr", "hmac-sha2-256", []int{262135, 262119}, 262136},                 // packet_length 262140, 262124
+		{"aes256-ctr", "hmac-sha2-512-etm@openssh.com", []int{262139, 262123}, 262140}, // 262144, 262128
+		{"aes128-gcm@openssh.com", "-", []int{262139, 262123}, 262140},                 // 262144, 262128
+		{"aes256-gcm@openssh.com", "-", []int{262139}, 262140},
+		{"chacha20-poly1305@openssh.com", "-", []int{262139, 262131, 262123, 262116}, 262140}, // 262144, 262136, 262128, 262128
+		{"aes128-cbc", "hmac-sha1", []int{262135, 262119}, 262136},                      // 262140, 262124
+		{"3des-cbc", "hmac-sha1-96", []int{262135, 262127, 262119}, 262136},             // 262140, 262132, 262124
+		{"arcfour128", "hmac-sha1", []int{262135}, 262136},
+		{"none", "-", []int{262135, 262119}, 262136},
 	}
+	deferBig = true
 	for i, e := range edge {
-		if g.Thorough() || i%3 == int(g.R.U64()%3) {
-			emitW(g, r, e.c, e.m, r.U32(), []int{e.lastOK})
-			g.Stat("edge.last-readable")
+		if !g.Thorough() && (e.c == "aes256-gcm@openssh.com" || e.c == "arcfour128") {
+			continue
+		}
+		for _, n := range e.accepted {
+			emitW(g, r, e.c, e.m, r.U32(), []int{n})
+			g.Stat("edge.accepted-sizes")
 		}
 		opSuffix = " edge=maxpkt"
-		emitW(g, r, e.c, e.m, r.U32(), []int{e.lastOK + 1})
-		if g.Thorough() || i%3 == 0 {
+		emitW(g, r, e.c, e.m, r.U32(), []int{e.refused})
+		if g.Thorough() || i%4 == int(r.U64()%4) {
 			emitW(g, r, e.c, e.m, r.U32(), []int{maxPacket})
 		}
 		opSuffix = ""
@@ -613,7 +638,7 @@ func gen(g *hx.Gen) {
 	}
 	big := allPairs()
 	hx.Shuffle(r, big)
-	nbig := 1
+	nbig := 0
 	if g.Thorough() {
 		nbig = len(big)
 	}
@@ -623,7 +648,7 @@ func gen(g *hx.Gen) {
 	}
 	aboveMax := []string{"aes128-ctr", "none", "aes128-gcm@openssh.com", "aes128-cbc", "chacha20-poly1305@openssh.com"}
 	if !g.Thorough() {
-		aboveMax = []string{"aes128-ctr", hx.Pick(r, aboveMax[1:])}
+		aboveMax = []string{hx.Pick(r, aboveMax)}
 	}
 	for _, c := range aboveMax {
 		m := "-"
@@ -633,8 +658,23 @@ func gen(g *hx.Gen) {
 		emitW(g, r, c, m, 7, []int{3, maxPacket + 1, 4}) // only streamPacketCipher's writer refuses
 		g.Stat("len.above-maxPacket")
 	}
+	deferBig = false
 
+	every := 1
+	if len(bigOps) > 0 && n > len(bigOps) {
+		every = n / len(bigOps)
+	}
+	defer func() {
+		for _, l := range bigOps { // whatever is left
+			g.Emit("%s", l)
+		}
+		bigOps = nil
+	}()
 	for i := 0; i < n; i++ {
+		if i%every == 0 && len(bigOps) > 0 {
+			g.Emit("%s", bigOps[0])
+			bigOps = bigOps[1:]
+		}
 		c, m := pickPair(r, g)
 		seq := r.U32()
 		if r.Chance(1, 5) {
